@@ -6,7 +6,7 @@
    every closed bucket keeps its readings when more candles arrive. *)
 From Coq Require Import ZArith List String Bool.
 From Hexital Require Import Base.Prelude Base.Num Model.Manager Model.Candle Model.Readings Model.Engine
-  Proofs.EngineProofs Proofs.CausalProofs Proofs.ComposeProofs.
+  Proofs.EngineProofs Proofs.CausalProofs Proofs.ComposeProofs Proofs.CompositeProofs Proofs.AtrCompose.
 Import ListNotations.
 Local Open Scope Z_scope.
 
@@ -57,3 +57,14 @@ Theorem C02_closed_buckets_final :
   exists tl, D' = removelast D ++ tl.
 Proof. intros O I calc tf xs ys D D' Htf HD HD'. eapply closed_buckets_final; eassumption. Qed.
 Print Assumptions C02_closed_buckets_final.
+
+(* a composite indicator: ATR over its true-range helper (see C01_atr_incremental_equals_batch):
+   a successful calculate() over ds ++ more extends calculate() over ds *)
+Theorem C02_atr_batch_is_causal :
+  forall (O : NumOps) (period : Z) (name : string) (rnd : Z), 1 <= period -> has_dot name = false ->
+  forall (ds more : list (cd (payload O))) (r : store O),
+  Forall (fresh O (Pa O period name rnd)) (ds ++ more) -> Forall (fresh O (Sb O name)) (ds ++ more) ->
+  calculate O (top O (K_ATR period) name rnd) (ds ++ more) = Ok r ->
+  exists mid tl, calculate O (top O (K_ATR period) name rnd) ds = Ok mid /\ r = mid ++ tl.
+Proof. intros O period name rnd Hp Hn ds more r HP HS H. eapply atr_batch_is_causal; eassumption. Qed.
+Print Assumptions C02_atr_batch_is_causal.
